@@ -590,3 +590,54 @@ class ImplGraph(ImplFeat):
             parts = str(self._fid(o._is_completed_observer)) if o._is_completed_observer is not None else ""  # pylint: disable=protected-access
             return f"{i}:residual({parts}) {fmt_graph(o.job_shop_graph)}"
         return super().fmt_fobs(i)
+
+
+# ----------------------------------------------------------------------------------- instance generator (C19)
+from job_shop_lib.generation import GeneralInstanceGenerator  # noqa: E402
+
+
+class ScriptedRng:
+    """Stands in for the generator's random.Random: the draw stream shared with the model."""
+
+    def __init__(self, draws):
+        self.draws = list(draws)
+        self.log = []
+
+    def _next(self):
+        return self.draws.pop(0) if self.draws else 0
+
+    def randint(self, a, b):
+        if a > b:
+            raise ValueError("empty range for randint")
+        d = self._next()
+        v = a + d % (b - a + 1)
+        self.log.append(("randint", a, b, v))
+        return v
+
+    def choice(self, seq):
+        if not seq:
+            raise IndexError("Cannot choose from an empty sequence")
+        d = self._next()
+        v = seq[d % len(seq)]
+        self.log.append(("choice", tuple(seq), v))
+        return v
+
+
+class ImplGen(ImplGraph):
+    def cmd_gen(self, ts):
+        xs = [int(t) for t in ts]
+        j1, j2, m1, m2, d1, d2, al, rc, k1, k2, n = xs[:11]
+        draws = xs[11:]
+        g = GeneralInstanceGenerator(num_jobs=(j1, j2), num_machines=(m1, m2), duration_range=(d1, d2),
+                                     allow_less_jobs_than_machines=bool(al), allow_recirculation=bool(rc),
+                                     machines_per_operation=(k1, k2), name_suffix="verif", iteration_limit=n)
+        g.rng = ScriptedRng(draws)
+        self.last_gen = (g, [])
+        out = []
+        try:
+            for inst in g:
+                self.last_gen[1].append(inst)
+                out.append(f"{inst.name.rsplit('_', 1)[1]} {fmt_instance(inst)}")
+        except (ValueError, IndexError):
+            return "raise"
+        return " ; ".join(out)
